@@ -139,6 +139,11 @@ theorem noop_body_eq : Gen.OutputStreams.noop_body =
 theorem format_datetime_body_eq : Gen.OutputStreams.format_datetime_body =
     ["return dt.isoformat(timespec='seconds')"] := rfl
 
+/-- `_reject_nul` (the SQL script's `str` encoder since e8cf4d3): raises on a NUL character, else the
+    identity (`applyEnc .rejectNul`) -/
+theorem reject_nul_body_eq : Gen.OutputStreams.reject_nul_body =
+    ["if '\\x00' in value:\n    raise ValueError('A SQL script cannot represent a NUL character in a string')", "return value"] := rfl
+
 /-- the `simplify` fallback -/
 theorem simplifier_encoder_body_eq : Gen.OutputStreams.simplifier_encoder_body =
     ["return field_value.simplify()"] := rfl
